@@ -129,9 +129,9 @@ class SuiteSparseSolver:
         except ValueError:
             logger.debug('Unexpected symbolic factorization.')
             self.F = self._symbolic(self.A)
-            self.solve(self.A, self.b)
 
-            return np.ravel(self.b)
+            # return the result of the second attempt (NaN if the matrix is singular), not `b`
+            return self.solve(self.A, self.b)
         except ArithmeticError:
             logger.error('Jacobian matrix is singular.')
             # diag = self.A[0:self.A.size[0] ** 2:self.A.size[0]+1]
@@ -195,6 +195,8 @@ class UMFPACKSolver(SuiteSparseSolver):
             umfpack.linsolve(A, b)
         except ArithmeticError:
             logger.error('Singular matrix. Case is not solvable')
+            # signal the failure like `solve` does instead of handing back the right-hand side
+            return np.ravel(matrix(np.nan, b.size, 'd'))
         return np.ravel(b)
 
 
@@ -220,4 +222,6 @@ class KLUSolver(SuiteSparseSolver):
             klu.linsolve(A, b)
         except ArithmeticError:
             logger.error('Singular matrix. Case is not solvable')
+            # signal the failure like `solve` does instead of handing back the right-hand side
+            return np.ravel(matrix(np.nan, b.size, 'd'))
         return np.ravel(b)
